@@ -315,16 +315,16 @@ func (mfd *murexFuncDetails) castParameters(p *Process) error {
 	for i := range mfd.Parameters {
 		s, err := p.Parameters.String(i)
 		if err != nil {
-			if p.Background.Get() {
-				return fmt.Errorf("cannot prompt for parameters when a function is run in the background: %s", err.Error())
-			}
-
 			if mfd.Parameters[i].Optional {
 				if mfd.Parameters[i].HasDefault {
 					s = mfd.Parameters[i].Default
 					goto convertType
 				}
 				continue
+			}
+
+			if p.Background.Get() {
+				return fmt.Errorf("cannot prompt for parameters when a function is run in the background: %s", err.Error())
 			}
 
 			s, err = mfd.Parameters[i].promptParameters()
